@@ -46,6 +46,13 @@ theorem full_iff_pinned {w : F → K} (hw : ∀ e, w e ≠ 0) {D : C → F → K
     Full w D k g f 0 u p lam ↔ (lam = 0 ∧ Pinned w D k g f p ∧ u = fluxUpdate w D g p) :=
   Saddle.full_iff_pinned hw hD k g hf u p lam
 
+/-- linearity in the data: a solution for `(g, f, r)` scaled by `a` is a solution for the scaled right-hand side, for
+every magnitude `a` (the oracle therefore solves the same systems at several magnitudes of the right-hand side) -/
+theorem full_system_homogeneous {w : F → K} {D : C → F → K} {k : C} {g : F → K} {f : C → K} {r : K}
+    {u : F → K} {p : C → K} {lam : K} (a : K) (h : Full w D k g f r u p lam) :
+    Full w D k (fun e => a * g e) (fun c => a * f c) (a * r) (fun e => a * u e) (fun c => a * p c) (a * lam) :=
+  Saddle.full_homogeneous a h
+
 /-- the zero-mean hypothesis of `pressure_equiv` is necessary: in the flux-eliminated system the
 multiplier equals minus the total source. -/
 theorem reduced_lambda_eq_neg_total {w : F → K} {D : C → F → K} (hD : ColSumZero D) {k : C} {g : F → K}
